@@ -172,9 +172,9 @@ def apply_call(obj, name, args):
     if name == "ditems":
         return [list(kv) for kv in obj.items()]
     if name in ("deq", "leq"):
-        return obj == args[0]
+        return obj == _operand(obj, args[0])
     if name in ("dne", "lne"):
-        return obj != args[0]
+        return obj != _operand(obj, args[0])
     if name == "dget":
         return obj.get(args[0], args[1])
     if name == "lsetitem":
@@ -213,8 +213,27 @@ def apply_call(obj, name, args):
     if name == "lcount":
         return obj.count(args[0])
     if name == "lcmp":
-        return CMP[args[0]](obj, args[1])
+        return CMP[args[0]](obj, _operand(obj, args[1]))
     raise ValueError(name)
+
+
+def _operand(obj, other):
+    """the right-hand side of a comparison, as plain data or - for unbuffered classes, chosen by a
+    deterministic function of the value - as a SYNCED collection of the same family with that
+    content (C03: comparisons agree "for synced and for plain operands").  The synced operand is a
+    detached sibling built by _from_base; comparing loads its root, which changes nothing."""
+    import zlib
+    if not isinstance(other, (list, dict)) or hasattr(type(obj), "_buffer"):
+        return other
+    if isinstance(other, list) != hasattr(obj, "append"):
+        return other
+    if zlib.crc32(repr(other).encode()) % 3 != 0:
+        return other
+    try:
+        obj._validate(other)
+    except Exception:  # noqa: BLE001
+        return other
+    return obj._from_base(data=other, parent=obj)
 
 
 def result_shape(name, args):
